@@ -758,7 +758,7 @@ class Interp:
             mm = re.match(r"\s*,\s*i\d+\s+(\d+)", r2)
             if mm:
                 n = int(mm.group(1))
-            setv(s.alloc(sizeof(t) * n, "none"))
+            setv(s.alloc(sizeof(t) * n, "fresh"))      # uninitialised stack floats read as arbitrary (fresh) values
         elif op == "bitcast":
             a, b = rest.rsplit(" to ", 1)
             setv(s.typed(env, a)[1])
